@@ -166,6 +166,70 @@ def run(F, R, tier):
         R.ob("C09-L", "value/type namespaces of a %s agree between its plain, exported and default-exported form" % kind, not missing and len(set(vals.values())) == 1,
              "namespaces() gives %s: the tracer would skip the declaration in one of its forms when a type (or value) reference asks for it, leaving an undeclared name in the output" % vals, ns["file"])
 
+    # ---------------- C09-D (what a declaration references) -------------------
+    # computed member keys are value references even inside types: every
+    # visitor of the dependency analyser hands a computed key to
+    # visit_computed_key (sibling agreement)
+    DF = "symbols::dep_analyzer::DepsFiller"
+    vck = DF + "::visit_computed_key"
+    n_ck = 0
+    for b in F.bodies:
+        if b.get("derived") or not (b.get("self_adt") == DF or b["path"].startswith("<" + DF)):
+            continue
+        if b["path"].endswith("::visit_computed_key"):
+            continue
+        for n in b["_nodes"]:
+            region = None
+            keyf = None
+            if n.get("k") == "If":
+                c = peel(n["cond"])
+                if c.get("k") == "Field" and c["field"] == "computed":
+                    region, keyf = n["then"], "key"
+            cands = [(region, keyf)] if region is not None else []
+            if n.get("k") == "Match":
+                for arm in n["arms"]:
+                    if "PropName::Computed" in pat_text(arm["pat"]):
+                        cands.append((arm["body"], "expr"))
+            for region, keyf in cands:
+              calls = [c_ for c_ in walk(region) if c_.get("k") in ("Call", "MethodCall") and any(mentions_field(a_, keyf) for a_ in call_args(c_)[1:] or call_args(c_))]
+              calls = [c_ for c_ in calls if not any(c2 is not c_ and is_within(c_, c2) for c2 in calls)]
+              for c_ in calls:
+                n_ck += 1
+                R.ob("C09-D", "computed key in %s is recorded as a value reference" % b["path"].split("::")[-1].rstrip(">"), callee_matches(c_, [vck]),
+                     "a computed key is visited with `%s` instead of visit_computed_key: inside a type it is recorded as a type reference, the value it names is not traced and the emitted declaration refers to a removed const" % expr_text(c_)[:50], where(c_))
+    R.floor("C09-D computed-key visits", n_ck, 5)
+    vb = F.body(vck)
+    ok = any(callee_matches(n, [DF + "::with_context"]) and any(ctor_of(x) == "symbols::dep_analyzer::ReferenceNamespace::Value" for x in walk(n)) for n in vb["_nodes"])
+    R.ob("C09-D", "visit_computed_key switches to the value namespace", ok, "visit_computed_key no longer visits the key under ReferenceNamespace::Value", vb["file"])
+
+    # ---------------- C09-R (referrer of a re-queued qualified trace) ----------
+    # the Id trace decides from the referrer whether the parent of a member has
+    # to be traced; a qualified trace that is re-queued must therefore keep the
+    # referrer it was queued with
+    n_q = 0
+    for n in [a_ for m_ in am["_nodes"] if m_.get("k") == "Match" for a_ in m_["arms"]]:
+        if (n["pat"].get("path") or "").endswith("PendingIdTrace::QualifiedId"):
+            # the binding of the `referrer_id` field
+            ref_lid = None
+            for fp in (n["pat"].get("fields") or []):
+                if fp.get("name") == "referrer_id":
+                    bs = pat_bindings(fp["pat"])
+                    ref_lid = bs[0]["lid"] if bs else None
+            if ref_lid is None:
+                continue
+            for x in walk(n["body"]):
+                if x.get("k") == "Struct" and (x.get("adt") or "").endswith("PendingIdTrace") and (x.get("variant") or ctor_of(x) or "").endswith("QualifiedId"):
+                    f = {y["name"]: y["e"] for y in x["fields"]}
+                    n_q += 1
+                    R.ob("C09-R", "a re-queued qualified trace keeps its referrer", peel_value(f["referrer_id"]).get("lid") == ref_lid,
+                         "PendingIdTrace::QualifiedId is re-queued with referrer `%s` instead of the referrer of the trace being processed: with the symbol itself as referrer the Id trace does not trace the member's parent, and private types the parent needs are dropped" % expr_text(f["referrer_id"]), where(x))
+                elif callee_matches(x, ["PendingTraces::maybe_add_id_trace"]):
+                    a_ = call_args(x)
+                    n_q += 1
+                    R.ob("C09-R", "an id trace queued from a qualified trace keeps its referrer", peel_value(a_[2]).get("lid") == ref_lid,
+                         "maybe_add_id_trace(.., %s, ..) inside the qualified-id arm does not pass the trace's referrer" % expr_text(a_[2]), where(x))
+    R.floor("C09-R re-queued traces in the qualified-id arm", n_q, 5)
+
     # ---------------- C09-E ------------------------------------------------
     tm = F.body("fast_check::transform::transform")
     eo = [n for n in tm["_nodes"] if n["k"] == "Struct" and (n.get("adt") or "").endswith("EmitOptions")]
